@@ -150,3 +150,14 @@ func VerifC13WriteMsg(c *Cache, ctx context.Context, under middleware.ResponseWr
 	}
 	return rw.WriteMsg(res)
 }
+
+// VerifC13ForgetAnswers drops the ordinary answer-cache entries of q (both CD
+// partitions, shared audience) and nothing else, so a scripted upstream can be
+// asked again; the failure cache is left alone (Store.Purge would clear it).
+func VerifC13ForgetAnswers(c *Cache, q dns.Question) {
+	for _, cd := range []bool{false, true} {
+		key := CacheKey{Question: q, CD: cd}.Hash()
+		c.positive.Remove(key)
+		c.negative.Remove(key)
+	}
+}
